@@ -229,7 +229,9 @@ impl<'a> LTr<'a> {
             Expr::Closure(c) if c.inputs.len() == 2 && c.capture.is_none() => c,
             _ => return Err("fold argument".into()),
         };
-        let names: Vec<String> = c.inputs.iter().map(|p| match p { Pat::Ident(id) if id.by_ref.is_none() && id.mutability.is_none() => Ok(id.ident.to_string()), _ => Err("fold closure parameter".to_string()) }).collect::<R<Vec<_>>>()?;
+        // `|mut acc, ref x|`: a mutable accumulator is a `let mut`; `ref x` is a reference to the element (read only)
+        let names: Vec<String> = c.inputs.iter().enumerate().map(|(i, p)| match p { Pat::Ident(id) if id.subpat.is_none() && (i == 0 && id.by_ref.is_none() || i == 1 && id.mutability.is_none()) => Ok(id.ident.to_string()), _ => Err("fold closure parameter".to_string()) }).collect::<R<Vec<_>>>()?;
+        let mut_acc = matches!(&c.inputs[0], Pat::Ident(id) if id.mutability.is_some());
         let hint = self.hint.take();
         let (iv, it) = self.expr(init)?;
         let acc_ty = if it != LTy::Unknown { it } else { hint.ok_or("fold accumulator of unknown type")? };
@@ -241,8 +243,15 @@ impl<'a> LTr<'a> {
         self.vars.insert(names[0].clone(), acc_ty.clone());
         self.vars.insert(names[1].clone(), elem.clone());
         self.closure = true;
+        if mut_acc {
+            self.emit(format!("let mut {} := {}", names[0], names[0]));
+        }
         let r = (|| -> R<()> {
             match &*c.body {
+                Expr::Block(b) => {
+                    let v = self.block(&b.block, false)?.ok_or("fold body without a value")?;
+                    self.emit(format!("pure {v}"));
+                }
                 Expr::Match(m) => {
                     let t = self.fresh();
                     self.match_arms(m, Some(&format!("let {t} : {}", acc_ty.lean())))?;
@@ -266,3 +275,5 @@ impl<'a> LTr<'a> {
         Ok((res, acc_ty))
     }
 }
+
+include!("t6l3.rs");
